@@ -28,4 +28,16 @@ CHECKS = {
         text="Breadth-first search over all operation sequences up to depth 4 (thorough 6) over 37 operations (2 keys x 3 values incl. the empty string) from 5 initial pair lists; every transition replays the history on a fresh real MutableMultiMapping and compares the operation result and eleven views with a list-of-pairs reference; every reachable pair list is loaded into the immutable classes; query-string round trip for all lists of <=2 pairs over an 8-symbol alphabet.",
         note="states are merged on the public views (multi_items, key order); depth bound; small key/value alphabet",
     ),
+    "C11": dict(
+        engine="explore", level="model_checking", design_ref="DESIGN.md §3 C11",
+        technique="explicit-state BFS over call histories of the real WebSocket wrapper x server scripts x send-fault positions, judged by a protocol automaton",
+        text="Breadth-first search to depth 5 (thorough 7) over 15 wrapper operations x 7 server scripts (connect, <=2 text/bytes frames, disconnect) x 4 server-send fault positions; every transition replays the history on a fresh real WebSocket over a scripted server; the forwarded events are judged by a prefix-closed websocket application automaton, plus checks that raising calls forward nothing, no receive after disconnect, frames in order once, one close, monotone states; denial-response and shortcut dispatch as a product.",
+        note="server answers immediately (one call = one atomic step); concurrent callers are outside the statement; depth bound",
+    ),
+    "C13": dict(
+        engine="explore", level="model_checking", design_ref="DESIGN.md §3 C13",
+        technique="explicit-state BFS over header-mapping mutation histories with emission on both gateways; exhaustive cookie and redirect strings over a hostile alphabet",
+        text="BFS to depth 3 (thorough 4) over 290 header-mapping mutations (6 keys x 8 values incl. CR/LF/NUL/CRLF injection, all mutation paths) against a dict that refuses control characters, every reachable state emitted through both gateway drivers; every cookie name x value up to length 2 (3) over 13 hostile symbols with default and full attribute sets (attribute list must be exactly the expected one, one header, ASCII); every redirect target up to length 3 over 11 symbols as str and as URL.",
+        note="constructor headers= argument not covered (not a mutating operation); cookie path/domain outside the statement; bounded string lengths",
+    ),
 }
